@@ -7,10 +7,13 @@ from concurrent.futures import ThreadPoolExecutor
 
 ROOT = os.path.dirname(os.path.dirname(os.path.abspath(__file__)))
 SPEC = os.path.join(ROOT, "spec")
-HARNESS = os.path.join(ROOT, "harness")
-REPO = "/repo"
+REPO = os.environ.get("VERIF_REPO", "/repo").rstrip("/")
+# VERIF_REPO=<scratch worktree of /repo>: development aid (trying a fix or a seeded change without touching
+# /repo): the harness is mirrored next to that worktree with its path dependencies rewritten. Registered
+# commands never set it, so they always build /repo itself.
+HARNESS = os.path.join(ROOT, "harness") if REPO == "/repo" else os.path.join(REPO, ".verif-harness")
 JAR = "/opt/veriftools/tla/tla2tools.jar:/opt/veriftools/tla/CommunityModules-deps.jar"
-NCPU = os.cpu_count() or 8
+NCPU = int(os.environ.get("VERIF_WORKERS", "0")) or min(os.cpu_count() or 8, 16)
 
 
 def is_new(line):
@@ -80,6 +83,12 @@ def tla_set(xs):
 # --------------------------------------------------------------------------- build
 def build(bins, features=None):
     """(Re)build the drivers from /repo's current working tree."""
+    if REPO != "/repo":
+        src_h = os.path.join(ROOT, "harness")
+        os.makedirs(HARNESS, exist_ok=True)
+        subprocess.run(["rsync", "-a", "--delete", "--exclude", "target", "--exclude", "Cargo.lock", src_h + "/", HARNESS + "/"], check=True)
+        ct = open(os.path.join(src_h, "Cargo.toml")).read().replace("/repo/crates/", REPO + "/crates/")
+        open(os.path.join(HARNESS, "Cargo.toml"), "w").write(ct)
     lock = os.path.join(HARNESS, "Cargo.lock")
     src = os.path.join(REPO, "Cargo.lock")
     if not os.path.exists(lock):
